@@ -246,7 +246,7 @@ Section Refine.
 
   Theorem step_refines d o : op_ok d o -> dstep eqfold replfix d o = spec_step eqfold replfix d o.
   Proof.
-    unfold op_ok, dstep, spec_step. destruct o as [dn pw|dn attrs|dn cs|dn|base flt|us|gs|b]; cbn [op_target dstep_with]; intros Hok; try reflexivity.
+    unfold op_ok, dstep, spec_step. destruct o as [dn pw|dn attrs|dn cs|dn|base flt|us|gs|b|]; cbn [op_target dstep_with]; intros Hok; try reflexivity.
     - (* add *)
       unfold handle_add. rewrite (filter_ext_in' (dir_lk dn) (spec_lk dn)); [reflexivity|].
       intros e Hin. apply (lk_agree d dn Hok). apply in_or_app. left. exact Hin.
@@ -271,6 +271,39 @@ Section Refine.
       rewrite (filter_ext_in' (dir_lk base) (spec_lk base) (groups d)) by
           (intros e Hin; apply (lk_agree d base Hok); apply in_or_app; right; exact Hin).
       reflexivity.
+  Qed.
+
+  (* binds inside a history: whatever came before (adds, deletes by any DN,
+     modifies, Set* calls, searches, other binds), a bind is answered from the
+     user entries and the anonymous flag of the state reached, and the Users()
+     probe shows exactly those entries *)
+  Lemma drun_app d pre post :
+    drun eqfold replfix d (pre ++ post) =
+    let (d1, xs) := drun eqfold replfix d pre in
+    let (d2, ys) := drun eqfold replfix d1 post in (d2, xs ++ ys).
+  Proof.
+    unfold drun. revert d. induction pre as [|o r IH]; intros d; cbn [app drun_with].
+    - destruct (drun_with _ d post); reflexivity.
+    - destruct (dstep eqfold replfix d o) as [d1 x]. rewrite IH.
+      destruct (drun_with _ d1 r) as [d2 xs]. destruct (drun_with _ d2 post) as [d3 ys]. reflexivity.
+  Qed.
+
+  Theorem bind_in_history d0 pre dn pw post :
+    let d := fst (drun eqfold replfix d0 pre) in
+    nth_error (snd (drun eqfold replfix d0 (pre ++ DBind dn pw :: post))) (length pre) =
+      Some {| res_code := handle_bind d dn pw; res_entries := [] |} /\
+    nth_error (snd (drun eqfold replfix d0 (pre ++ DUsers :: post))) (length pre) =
+      Some {| res_code := 0; res_entries := users d |}.
+  Proof.
+    cbn zeta. assert (Hlen : forall ops d, length (snd (drun eqfold replfix d ops)) = length ops).
+    { unfold drun. induction ops as [|o r IH]; intros d; [reflexivity|]. cbn [drun_with].
+      destruct (dstep eqfold replfix d o) as [d1 x]. specialize (IH d1).
+      destruct (drun_with _ d1 r) as [d2 xs]. cbn [snd length] in *. rewrite IH. reflexivity. }
+    split; rewrite drun_app; specialize (Hlen pre d0);
+      destruct (drun eqfold replfix d0 pre) as [d1 xs]; cbn [fst snd] in *;
+      unfold drun; cbn [drun_with dstep dstep_with];
+      match goal with |- context [drun_with ?st ?dd post] => destruct (drun_with st dd post) as [d2 ys] end;
+      cbn [snd]; rewrite nth_error_app2 by lia; rewrite Hlen, Nat.sub_diag; reflexivity.
   Qed.
 
   (* a history whose every operation is usable in the state it meets *)
